@@ -379,12 +379,17 @@ def build_sim(names, extras=True, max_time=6):
 
 def check_sim_reference():
     """build_sim with SIM's own names must be the bundled builder (else the check tests something else)."""
-    from sfc_models.gl_book.chapter3 import SIM
-    mod = SIM('C').build_model()
-    mod.MaxTime = 6
-    ref_text = mod.main()
+    try:
+        from sfc_models.gl_book.chapter3 import SIM
+        mod = SIM('C').build_model()
+        mod.MaxTime = 6
+        ref_text = mod.main()
+        ref_series = _series(mod.EquationSolver.TimeSeries)
+    except Exception as e:
+        raise core.MachineryError('gl_book.chapter3.SIM does not run on this tree: %s: %s' % (
+            type(e).__name__, str(e)[:200]))
     ok, _l, ser, exc, text = build_sim(dict(SIM_NAMES, desc1='', desc2=''), extras=False)
-    if not ok or text != ref_text or ser != _series(mod.EquationSolver.TimeSeries):
+    if not ok or text != ref_text or ser != ref_series:
         raise core.MachineryError('build_sim does not reproduce gl_book.chapter3.SIM (%s)' % exc)
 
 
@@ -536,11 +541,20 @@ def run(rep):
         rep.extra.setdefault('behaviours_emitted', {})[cfg] = len(codes)
         for a in range(0, len(items), 40000):
             judge_blocks(rep, items[a:a + 40000])
-    check_sim_reference()
-    cases = pair_cases(rep)
-    judge_pairs(rep, cases)
-    rep.extra['solve_pairs'] = sum(1 for c in cases if c[0] == 'solve')
-    rep.extra['model_pairs'] = sum(1 for c in cases if c[0] == 'model')
+    # observed-vs-observed pairs need a reference run that works; when it does not and the blocks above
+    # already falsified the property, that result stands (exit 1) and the pairs are skipped
+    try:
+        cases = pair_cases(rep)
+        judge_pairs(rep, [c for c in cases if c[0] == 'solve'])
+        rep.extra['solve_pairs'] = sum(1 for c in cases if c[0] == 'solve')
+        check_sim_reference()
+        judge_pairs(rep, [c for c in cases if c[0] == 'model'])
+        rep.extra['model_pairs'] = sum(1 for c in cases if c[0] == 'model')
+    except core.MachineryError as e:
+        if not rep.violations:
+            raise
+        rep.extra['pairs_skipped'] = str(e)[:300]
+        print('NOTE property=C14 pair comparisons skipped (reference run unusable): %s' % str(e)[:200])
 
 
 def replay(path):
